@@ -307,25 +307,28 @@ IsType(c) == c \notin {"unc", "conflict", "undet"}
 (* ---------------------------------------------------------------------- *)
 Solved(sol, t) == IF t.k = "node" THEN (LET c == TypeOfNode(sol, t.n) IN IF IsType(c) THEN Prim(c) ELSE Opaque) ELSE t
 
-RECURSIVE OpBad(_, _, _, _), OpBadSeq(_, _, _, _, _)
-OpBadSeq(P, env, sol, es, i) == IF i > Len(es) THEN FALSE ELSE OpBad(P, env, sol, es[i]) \/ OpBadSeq(P, env, sol, es, i + 1)
-OpBad(P, env, sol, e) ==
+\* want = "no": some operator / cast of the solved program breaks its class rule (E550 / E552);
+\* want = "unc": some operator / cast is a cell TypeRules leaves unconstrained (bitwise on usize, ...)
+Hit(v, want) == IF want = "no" THEN (~v.ok /\ ~v.unc) ELSE v.unc
+RECURSIVE OpBad(_, _, _, _, _), OpBadSeq(_, _, _, _, _, _)
+OpBadSeq(P, env, sol, es, i, want) == IF i > Len(es) THEN FALSE ELSE OpBad(P, env, sol, es[i], want) \/ OpBadSeq(P, env, sol, es, i + 1, want)
+OpBad(P, env, sol, e, want) ==
     CASE e.k = "bin" ->
             (LET a == Solved(sol, TyOf(P, env, e.l))
                  b == Solved(sol, TyOf(P, env, e.r))
              IN a.k = "prim" /\ b.k = "prim" /\ (HasNode(TyOf(P, env, e.l)) \/ HasNode(TyOf(P, env, e.r)))
-                /\ LET v == TR!BinResult(e.op, <<a.t>>, <<b.t>>) IN ~v.ok /\ ~v.unc)
-            \/ OpBad(P, env, sol, e.l) \/ OpBad(P, env, sol, e.r)
+                /\ Hit(TR!BinResult(e.op, <<a.t>>, <<b.t>>), want))
+            \/ OpBad(P, env, sol, e.l, want) \/ OpBad(P, env, sol, e.r, want)
       [] e.k = "as" ->
             (LET a == Solved(sol, TyOf(P, env, e.e))
-             IN a.k = "prim" /\ HasNode(TyOf(P, env, e.e))
-                /\ LET v == TR!CastOK(<<a.t>>, <<e.t>>) IN ~v.ok /\ ~v.unc)
-            \/ OpBad(P, env, sol, e.e)
-      [] e.k \in {"un", "paren"} -> OpBad(P, env, sol, e.e)
-      [] e.k = "call" -> OpBadSeq(P, env, sol, e.args, 1)
-      [] e.k = "idx"  -> OpBad(P, env, sol, e.i)
+             IN a.k = "prim" /\ HasNode(TyOf(P, env, e.e)) /\ Hit(TR!CastOK(<<a.t>>, <<e.t>>), want))
+            \/ OpBad(P, env, sol, e.e, want)
+      [] e.k \in {"un", "paren"} -> OpBad(P, env, sol, e.e, want)
+      [] e.k = "call" -> OpBadSeq(P, env, sol, e.args, 1, want)
+      [] e.k = "idx"  -> OpBad(P, env, sol, e.i, want)
       [] OTHER -> FALSE
-OpViolation(P, f, sol) == OpBadSeq(P, Env(P, f), sol, AllExprs(f), 1)
+OpViolation(P, f, sol) == OpBadSeq(P, Env(P, f), sol, AllExprs(f), 1, "no")
+OpUnconstrained(P, f, sol) == OpBadSeq(P, Env(P, f), sol, AllExprs(f), 1, "unc")
 
 (* ---------------------------------------------------------------------- *)
 (* verdicts                                                                *)
@@ -341,6 +344,7 @@ FVerdict(P, f, sol, static) ==
     ELSE IF \E r \in sol : r.c = "undet" /\ ~r.hint THEN "undet"
     ELSE IF \E r \in sol : r.c \in {"unc", "undet"} THEN "unc"
     ELSE IF OpViolation(P, f, sol) THEN "reject"
+    ELSE IF OpUnconstrained(P, f, sol) THEN "unc"
     ELSE IF \A r \in sol : r.d <= (IF r.lit THEN DemandLit ELSE DemandVar) THEN "accept"
     ELSE "free"
 
